@@ -69,6 +69,9 @@ package pkce
 //@   let canhandle = c.CanHandleTokenEndpointRequest(ctx, request)
 //@   requires c != nil && request != nil && !stored[request]
 //@   modifies pkce_exists, faults, hash_data, is_hash, hash_alg, tx_escaped
+// the PKCE table is addressed by the code's signature only, never by the complete code (C20)
+//@   assert @call(GetPKCERequestSession)#1 [C20.pkce-storage-key-is-the-signature] $arg2 == sig
+//@   assert @call(deletePKCERequestSession)#1 [C20.pkce-storage-key-is-the-signature] $arg2 == sig
 //@   ensures [C03.verifier-required] canhandle && had && challenge != "" && err == nil ==> wellformed(verifier) && transform(method, verifier) == challenge
 //@   ensures [C03.plain-opt-in] canhandle && had && challenge != "" && err == nil && method != "S256" ==> c.Config.GetEnablePKCEPlainChallengeMethod(ctx)
 //@   ensures [C03.no-session-no-verifier] canhandle && !had && err == nil ==> verifier == "" && !c.Config.GetEnforcePKCE(ctx) && !(c.Config.GetEnforcePKCEForPublicClients(ctx) && old(request.GetClient()).IsPublic())
@@ -88,6 +91,7 @@ package pkce
 //@   let canhandle = c.CanHandleTokenEndpointRequest(ctx, requester)
 //@   requires c != nil && requester != nil
 //@   modifies pkce_exists, faults, tx_escaped
+//@   assert @call(deletePKCERequestSession)#1 [C20.pkce-storage-key-is-the-signature] $arg2 == sig
 //@   ensures [C03.success-consumes-binding] canhandle && verifier != "" && err == nil ==> !pkce_exists[sig]
 //@   ensures [C03.populate-touches-only-its-binding] (forall s string :: s != sig ==> pkce_exists[s] == old(pkce_exists[s])) && (!canhandle || verifier == "" ==> pkce_exists == old(pkce_exists))
 //@   ensures [C18.pkce-populate-fault-refuses] faults != old(faults) ==> err != nil
